@@ -196,7 +196,24 @@ def check_pool_key(model, col, rule):
     col.check(bool(reg), rule, f"{IR}::Function.CreateConstant registers the constant", "a new constant gets a reference of this function", None, IR, fn)
 
 
-def run(model, col, tier):
+def run(model, col, tier, share=True):
+    if share:
+        # what the interpreter does for an instruction does not depend on how many instructions ran before it: the context
+        # keeps no state of its own between instructions or activations (= R15.1 on ExecutionContext's fields). An optimised
+        # function executes fewer instructions; a budget, a counter that is read, a depth that leaks all make that visible.
+        from ..report import Collector as _C210
+        from . import c15 as _c15
+
+        sub = _C210("C15")
+        _c15.run(model, sub, "quick")
+        n15 = 0
+        for ob in sub.obligations:
+            if ob.rule == "R15.1" and "ExecutionContext" in ob.construct and ("sets attribute" in ob.construct or "mutates self" in ob.construct):
+                ob.detail = "[R15.1] " + (ob.detail or "")
+                ob.rule = "R02.10"
+                col.obligations.append(ob)
+                n15 += 1
+        col.floor("R02.10", "context-state obligations shared with C15", n15, 1)
     pipe = Pipeline(model)
     vm = VMModel(model)
     check_operand_protocol(model, col, "R02.1")
